@@ -22,6 +22,13 @@ Streams
   U   verb spellings from the full Unicode case-mapping closure of "pass" (every character that lower / casefold /
       upper / NFKC / NFKD send to a piece of "pass", computed from the interpreter), sent as raw lines after
       USER; judged by "answered as a login (not 502) => censored"; compared with model fn 2
+  A   alias spellings of EVERY verb of the server (x+verb, verb+x, truncations, suffixes, doubled; lower/upper case)
+      carrying a marker argument, in three login contexts (after USER, logged in, no user); judged by where the line
+      ends up -- argument handed to authenticate() or the reply a genuine PASS gets in that context => censored;
+      compared with model fn 2 (a non-verb is answered 502)
+  M   several control connections on one server with connection limits (User.maximum_connections = 1..3,
+      Server.maximum_connections): full / pending / released slots, two limited users, anonymous, the real client;
+      oracle over the records of all connections + the refusal reply predicted
   X   outside the property's domain, observed and reported, never a violation: TAB separator,
       leading blank, LF inside the password, undecodable bytes, over-long line (for the last two
       the marker oracle is still evaluated: the traceback must not carry the content)
@@ -64,7 +71,7 @@ LEVEL_TEXT = (
     "C20_outcome_independent, C20_pass_reply_fixed, C20_censored_args_are_stars, C20_pass_spellings, C20_other_verbs_are_not_logins and the checker "
     "soundness theorems C20_every_site_hides_server/client are proved for every verb spelling the server dispatches as "
     "PASS, every password string (LF-free at stream level), every line ending, every session prefix/suffix and user table "
-    "(Closed under the global context); C20_check_log_sites, C20_modelled_sites_match and C20_pass_facts are closed "
+    "(Closed under the global context); C20_check_log_sites, C20_modelled_sites_match, C20_no_secret_object_logged and C20_pass_facts (incl. 'the handler of a line is commands_mapping.get(<the verb parse_command returned>) and nothing else') are closed "
     "obligations over the logging-site inventory regenerated from /repo on every run, C20_login_program_ok over the regenerated login program. The model is hand-written; its "
     "tie to the code is the regenerated inventory plus a differential correspondence on captured LogRecord objects, so "
     "the assurance is a proof about the model plus regenerated structure plus sampled agreement of model and code."
@@ -79,7 +86,8 @@ LEVEL_NOTE = (
 )
 TRUSTED = [
     "tools/py2v/gen_logging.py: intra-procedural taint pass over every logging call of server.py/client.py/common.py/pathio.py "
-    "(fail-closed on aliasing of logger objects, *args, computed levels, logging calls in lambdas/comprehensions/class bodies)",
+    "(fail-closed on aliasing of logger objects, *args, computed levels, logging calls in lambdas/comprehensions/class bodies; locals named by role, "
+    "objects of classes whose __repr__/__str__ prints the password found by use and treated as password sources)",
     "logging.LogRecord.getMessage formats msg % args only when args is non-empty; logging.Formatter.formatException prints "
     "exception type, str(exception) and source lines, never local values (exercised: undecodable and over-long PASS lines)",
     "text-level model: decode(encode(t)) = t for utf-8; readline() splits at LF only (exercised)",
@@ -87,7 +95,8 @@ TRUSTED = [
 ASSUMPTIONS = [
     "domain: a PASS command is V ++ ' ' ++ p with lower(V) = 'pass' (the server's own verb grammar); p is LF-free at stream "
     "level (an LF ends the command); the password decodes in the server's encoding",
-    "modelled, not verified: CPython str.rstrip/partition/lower, logging %-formatting of '%s', MemoryUserManager without connection limits",
+    "modelled, not verified: CPython str.rstrip/partition/lower, logging %-formatting of '%s', MemoryUserManager without connection limits "
+    "(the limits are exercised on the real code by stream M: oracle and refusal prediction, no Coq model)",
     "the reply texts of the model are literals; Gen/Logging.v re-extracts them and checks they are literals in the source, "
     "the correspondence compares them byte for byte",
 ]
@@ -1101,6 +1110,9 @@ def correspondence(ctx, budget=None):
         "each script run with a password and its marker twin; "
         "U: every spelling of 'pass' with one non-ASCII character of the interpreter's case-mapping / compatibility closure at each position "
         "(+ random multi-character ones), raw session USER u / <spelling> <marker>, oracle: answered other than 502 => no marker, twin-equal. "
+        "A: for every verb of Server().commands_mapping the alias spellings x+v, v+x, v[:-1], v[:3], v+d/wd/word, v+v (thorough: more, random case), lower and upper, "
+        "x 3 login contexts, raw session with a marker argument, oracle: argument handed to authenticate() or answered like a genuine PASS of that context => no marker, twin-equal; "
+        "M: 7 multi-connection scenarios with connection limits (per user k=1..3, per server, anonymous, real client) x 6 verb spellings x passwords, each with p and twin; "
         "A case is non-trivial when its (stream, verb/outcome, password) key is new."
     )
     xcheck = []
